@@ -460,15 +460,16 @@ def dmtx_from_csv(path, frametimes=None):
     """
     import csv
     with open(path, newline='') as csvfile:
-        # restrict the guess to real separators: on a one-column file the
-        # sniffer otherwise picks a digit or a letter of the header
+        # only the delimiter is guessed (restricted to real separators); the
+        # rest of the dialect is the one write_csv uses, so that blanks and
+        # quotes in names survive.  One-column file: no delimiter to find.
         try:
-            dialect = csv.Sniffer().sniff(csvfile.read(), delimiters=',;\t ')
+            delimiter = csv.Sniffer().sniff(
+                csvfile.read(), delimiters=',;\t ').delimiter
         except csv.Error:
-            # one-column file: there is no delimiter to find
-            dialect = csv.excel
+            delimiter = ','
         csvfile.seek(0)
-        reader = csv.reader(csvfile, dialect)
+        reader = csv.reader(csvfile, delimiter=delimiter)
         boolfirst = True
         design = []
         for row in reader:
